@@ -16,7 +16,9 @@
      gives back exactly `v`; hence re-encoding reproduces `bs` (`RoundTrip.reencode`).  `RoundTripPrefix` (fixed-size
      kinds) adds: arbitrary trailing bytes inside the slice are ignored, i.e. exactly `Len()` bytes are consumed.
        leaf kinds   VLAN, ARP, ICMP, UDP, TCP, FragmentHeader, Option, IGMPv1or2, RoutingHeader, u.Buffer
-       lists        HopByHopHeader (options), IGMPv3Query (sources), IGMPv3GroupRecord (sources + aux words),
+       lists        HopByHopHeader (options: one-byte Pad1 options — type 0, `Length` 0 and no data, since nothing but the
+                    type byte reaches the wire, `option_pad1_carries_no_data` — and `2 + Length`-byte options mixed in
+                    any order), IGMPv3Query (sources), IGMPv3GroupRecord (sources + aux words),
                     IGMPv3MembershipReport (group records)
        containers   IPv4 (options; ICMP / UDP / opaque payload), IPv6 (any chain of hop-by-hop / routing / fragment headers
                     that the next-header values describe, `chain_lemma`; ICMPv6 / UDP / opaque payload), Ethernet
@@ -513,23 +515,42 @@ example : Fragment.WFv (.obj "p.FragmentHeader" [.num 17, .num 0, .num 0x1abc, .
 /-! ### IPv6 option (TLV inside a hop-by-hop header) -/
 
 
-/-- well-formed option: type/length 8 bits, the data is exactly `Length` bytes -/
+/-- well-formed option: type/length 8 bits, the data is exactly `Length` bytes; a Pad1 option (type 0) is the single type
+    byte on the wire — neither a length nor data — so its `Length` must be 0 (and its data empty) -/
 def Option.WFv : V → Prop
-  | .obj "p.Option" [.num ty, .num ln, .bytes d] => ty < 256 ∧ ln < 256 ∧ d.length = ln
+  | .obj "p.Option" [.num ty, .num ln, .bytes d] => ty < 256 ∧ ln < 256 ∧ d.length = ln ∧ (ty = 0 → ln = 0)
   | _ => False
 instance : DecidablePred Option.WFv := fun v => by unfold Option.WFv; split <;> infer_instance
 
-/-- a well-formed option round-trips through its `2 + Length` bytes; trailing bytes are ignored -/
+/-- the Pad1 option round-trips through its single byte `0`; trailing bytes are ignored -/
+theorem option_pad1_roundtrip : RoundTripPrefix kOption (.obj "p.Option" [.num 0, .num 0, .bytes []]) := by
+  refine ⟨[0], 1, rfl, rfl, rfl, ?_⟩
+  intro tail n hn1 hn2
+  simp at hn1 hn2
+  simp only [kOption]
+  unfold POption.unmarshal
+  have a1 : 1 ≤ n := hn1
+  have a2 : 0 < n := by omega
+  rt_reads [a1, a2]
+
+/-- a well-formed option round-trips — Pad1 through its single byte, every other option through its `2 + Length`
+    bytes; trailing bytes are ignored -/
 theorem option_roundtrip (v : V) (h : Option.WFv v) : RoundTripPrefix kOption v := by
   unfold Option.WFv at h
   split at h
   · rename_i ty ln d
-    obtain ⟨h1, h2, h3⟩ := h
+    obtain ⟨h1, h2, h3, h4⟩ := h
     subst h3
-    have hlen := option_len ty d.length h2
+    by_cases h0 : ty = 0
+    · subst h0
+      have hd : d = [] := List.eq_nil_of_length_eq_zero (h4 rfl)
+      subst hd
+      exact option_pad1_roundtrip
+    have hlen := option_len ty d.length h1 h0 h2
+    have hne : ¬ n8 ty = 0 := fun e => h0 ((n8_eq_zero ty h1).mp e)
     refine ⟨[n8 ty, n8 d.length] ++ d, Gen.protocol.Option.Len { Type_ := n8 ty, Length := n8 d.length }, ?_⟩
     refine ⟨?_, ?_, ?_, ?_⟩
-    · simp only [kOption, POption.marshalM, POption.bytes, POption.len, Res.bind_ok, hlen]
+    · simp only [kOption, POption.marshalM, POption.bytes, POption.len, Res.bind_ok, hlen, if_neg hne]
       rt_fill
       simp [piecesBytes, Piece.bytes, pU8, pCopy, same]
     · simp [kOption, POption.lenM, POption.len, same]
@@ -543,10 +564,18 @@ theorem option_roundtrip (v : V) (h : Option.WFv v) : RoundTripPrefix kOption v 
       have a3 : 1 < n := by omega
       have a4 : ¬ n - 2 < d.length := by omega
       have a5 : 2 + d.length ≤ d.length + tail.length + 1 + 1 := by omega
-      rt_reads [a1, a2, a3, a4, a5, n8_toNat _ h2, h1, h2]
+      rt_reads [a1, a2, a3, a4, a5, n8_toNat _ h2, h1, h2, hne]
   · exact h.elim
 
 example : Option.WFv (.obj "p.Option" [.num 5, .num 2, .bytes [0, 0]]) := by decide
+example : Option.WFv (.obj "p.Option" [.num 0, .num 0, .bytes []]) := by decide
+
+/-- the restriction on Pad1 in `Option.WFv` is necessary: a type-0 option whose `Length` / data are not empty is encoded
+    as the single byte `0` (Pad1 has no length and no data on the wire), and that byte decodes to the empty Pad1 -/
+theorem option_pad1_carries_no_data :
+    POption.marshalM (.obj "p.Option" [.num 0, .num 2, .bytes [7, 9]]) = .ok ([0], .obj "p.Option" [.num 0, .num 2, .bytes [7, 9]]) ∧
+    ∀ spare, POption.unmarshal POption.zero ⟨[0] ++ spare, 1⟩ = .ok (.obj "p.Option" [.num 0, .num 0, .bytes []]) :=
+  ⟨rfl, fun _ => rfl⟩
 
 /-! ### IGMP v1/v2 -/
 
@@ -635,26 +664,32 @@ example : Routing.WFv (.obj "p.RoutingHeader" [.num 6, .num 0, .num 0, .num 1, .
 
 /-! ### IPv6 hop-by-hop header (a list of options) -/
 
-/-- encoded size of an option value: `2 + Length` -/
+/-- encoded size of an option value: 1 for Pad1 (type 0), otherwise `2 + Length` -/
 def optSize : V → Nat
-  | .obj "p.Option" [_, .num ln, _] => ln + 2
+  | .obj "p.Option" [.num ty, .num ln, _] => if ty = 0 then 1 else ln + 2
   | _ => 0
 
-/-- the reported size of a well-formed option is `2 + Length` (at least 2, so the option loop advances) -/
-theorem option_len_size (o : V) (h : Option.WFv o) : ∀ l, POption.len o = .ok l → l.toNat = optSize o ∧ 2 ≤ l.toNat := by
+/-- the reported size of a well-formed option is 1 for Pad1 and `2 + Length` otherwise (at least 1, so the option loop
+    advances) -/
+theorem option_len_size (o : V) (h : Option.WFv o) : ∀ l, POption.len o = .ok l → l.toNat = optSize o ∧ 1 ≤ l.toNat := by
   unfold Option.WFv at h
   split at h
   · rename_i ty ln d
     intro l hl
     simp only [POption.len] at hl
     cases hl
-    rw [option_len ty ln h.2.1]
-    exact ⟨rfl, by omega⟩
+    by_cases h0 : ty = 0
+    · subst h0
+      rw [option_len_pad1 ln]
+      exact ⟨rfl, Nat.le_refl _⟩
+    · rw [option_len ty ln h.1 h0 h.2.1]
+      refine ⟨?_, by omega⟩
+      simp only [optSize, if_neg h0]
   · exact h.elim
 
 /-- what the round trip of one well-formed option provides, in the terms the hop-by-hop header uses -/
 theorem option_facts (o : V) (h : Option.WFv o) :
-    ∃ bs l, POption.bytes o = .ok bs ∧ POption.len o = .ok l ∧ bs.length = l.toNat ∧ l.toNat = optSize o ∧ 2 ≤ l.toNat ∧
+    ∃ bs l, POption.bytes o = .ok bs ∧ POption.len o = .ok l ∧ bs.length = l.toNat ∧ l.toNat = optSize o ∧ 1 ≤ l.toNat ∧
       ∀ tail n, bs.length ≤ n → n ≤ (bs ++ tail).length → POption.unmarshal POption.zero ⟨bs ++ tail, n⟩ = .ok o := by
   obtain ⟨bs, l, h1, h2, h3, h4⟩ := option_roundtrip o h
   simp only [kOption, POption.marshalM, POption.lenM] at h1 h2
@@ -734,15 +769,16 @@ theorem hbh_opts (os : List V) (hwf : ∀ o ∈ os, Option.WFv o) :
 /-- `HopByHopHeader` operations -/
 def kHopByHop : KindOps := ⟨PHopByHop.lenM, PHopByHop.marshalM, PHopByHop.unmarshal, PHopByHop.zero⟩
 
-/-- well-formed hop-by-hop header: 8-bit fields, well-formed options that fill the header exactly up to `8·(HEL+1)` -/
+/-- well-formed hop-by-hop header: 8-bit fields, well-formed options — Pad1 (one byte each) and ordinary options
+    (`2 + Length` bytes each) in any order — that fill the header exactly up to `8·(HEL+1)` -/
 def HopByHop.WFv : V → Prop
   | .obj "p.HopByHopHeader" [.num nh, .num hel, .list os] =>
     nh < 256 ∧ hel < 256 ∧ (∀ o ∈ os, Option.WFv o) ∧ 2 + (os.map optSize).sum = 8 * (hel + 1)
   | _ => False
 instance : DecidablePred HopByHop.WFv := fun v => by unfold HopByHop.WFv; split <;> infer_instance
 
-/-- a well-formed hop-by-hop header (any number of options) round-trips through its `8·(HEL+1)` bytes; trailing
-    bytes are ignored -/
+/-- a well-formed hop-by-hop header (any number of options, Pad1 and ordinary options mixed in any order) round-trips
+    through its `8·(HEL+1)` bytes; trailing bytes are ignored -/
 theorem hopbyhop_roundtrip (v : V) (h : HopByHop.WFv v) : RoundTripPrefix kHopByHop v := by
   unfold HopByHop.WFv at h
   split at h
@@ -793,6 +829,22 @@ theorem hopbyhop_roundtrip (v : V) (h : HopByHop.WFv v) : RoundTripPrefix kHopBy
 
 example : HopByHop.WFv (.obj "p.HopByHopHeader" [.num 58, .num 1, .list [.obj "p.Option" [.num 5, .num 2, .bytes [0, 7]],
     .obj "p.Option" [.num 1, .num 8, .bytes [0, 0, 0, 0, 0, 0, 0, 0]]]]) := by decide
+
+/-- Pad1 options mixed with ordinary ones: `Pad1, (5, 2, [0, 7]), Pad1` fills an 8-byte header -/
+example : HopByHop.WFv (.obj "p.HopByHopHeader" [.num 58, .num 0, .list [.obj "p.Option" [.num 0, .num 0, .bytes []],
+    .obj "p.Option" [.num 5, .num 2, .bytes [0, 7]], .obj "p.Option" [.num 0, .num 0, .bytes []]]]) := by decide
+
+/-- the mixed header above on the wire: each Pad1 is the single byte `0`, and the 8 bytes decode back to the same three
+    options (instance of `hopbyhop_roundtrip`, here with the bytes spelled out) -/
+example :
+    PHopByHop.marshalM (.obj "p.HopByHopHeader" [.num 58, .num 0, .list [.obj "p.Option" [.num 0, .num 0, .bytes []],
+        .obj "p.Option" [.num 5, .num 2, .bytes [0, 7]], .obj "p.Option" [.num 0, .num 0, .bytes []]]])
+      = .ok ([58, 0, 0, 5, 2, 0, 7, 0], .obj "p.HopByHopHeader" [.num 58, .num 0, .list [.obj "p.Option" [.num 0, .num 0, .bytes []],
+        .obj "p.Option" [.num 5, .num 2, .bytes [0, 7]], .obj "p.Option" [.num 0, .num 0, .bytes []]]]) ∧
+    PHopByHop.unmarshal PHopByHop.zero (Slice.exact [58, 0, 0, 5, 2, 0, 7, 0])
+      = .ok (.obj "p.HopByHopHeader" [.num 58, .num 0, .list [.obj "p.Option" [.num 0, .num 0, .bytes []],
+        .obj "p.Option" [.num 5, .num 2, .bytes [0, 7]], .obj "p.Option" [.num 0, .num 0, .bytes []]]]) :=
+  ⟨rfl, rfl⟩
 
 /-! ### IGMPv3 query (S/QRV lane, list of source addresses) -/
 
